@@ -5,6 +5,23 @@ HERE = os.path.dirname(os.path.dirname(os.path.abspath(__file__)))
 ids = [json.loads(l)["id"] for l in open(os.path.join(HERE, "properties.jsonl"))]
 
 CLAIMS = {
+ "C02": dict(
+   text="Connection.read (controller) and OFConnection.read + IOWorker receive helpers (switch) are proved, for an arbitrary "
+        "buffer and an arbitrary received chunk, to decode and hand over exactly the frames at the boundaries cut(k) of the "
+        "ghost stream (boundaries follow declared lengths), each once and in order, and to retain exactly the bytes from the "
+        "last boundary; a lemma closes the induction over reads (boundaries of buffer++chunk = boundaries of the whole "
+        "stream). A bounded stand-in runs the real decoders over all 1-cuts / gridded 2-cuts / dribble / random k-cuts.",
+   note="trusted: pyvc, z3, decoders through their family contract (returns offset + declared length or raises; C01/C10); "
+        "that the select loops keep calling read() is not decided.",
+   ref="7/C02"),
+ "C10": dict(
+   text="For arbitrary bytes: every list-free message decoder either raises a listed exception or consumes exactly the "
+        "declared length (>= its fixed part); Connection.read and OFConnection.read terminate (loop variants), never index "
+        "outside the buffer, keep a suffix of the stream; OFConnection.read raises nothing (an escaping exception would stop "
+        "the switch's I/O loop). Six genuine defects found by refuted obligations were repaired (fix: commits). Bounded "
+        "stand-in: 18k structured corruptions through the real decoders on both sides.",
+   note="trusted: pyvc, z3, family contract for list-carrying decoders; liveness of the task loops not decided.",
+   ref="7/C10"),
  "C03": dict(
    text="ofp_match.matches_with_wildcards is proved equal to the OpenFlow 1.0 match predicate for every wildcard word, "
         "every prefix length and all field values; ofp_match.from_packet is proved against the extraction rules for 14 header-"
